@@ -454,21 +454,21 @@ Proof. vm_compute. repeat split. Qed.
    runes[:128] is taken. A text is ANY list of units (well-formed sequences of any code point / stray bytes). *)
 Require Tinode.Pure.PushPreviewC13 Tinode.Pure.PushPreviewC13Proofs.
 
-(* for EVERY text: the truncation never slices beyond the rune length, the content is a prefix of the text of at
-   most 128 runes, followed by the ellipsis exactly when runes were dropped *)
+(* for EVERY text: the truncation never slices beyond the rune length, the content is the text itself (at most 128 runes) or
+   a prefix of its runes of at most 128 runes followed by the ellipsis, the latter exactly when runes were dropped *)
 Theorem c13_push_preview_no_panic : forall s,
   (forall b l, PushPreviewC13.trim_c13 true s <> PushPreviewC13.PPanicSlice b l) /\
   exists p, (length p <= PushPreviewC13.max_payload_c13)%nat /\ p = firstn (length p) (PushPreviewC13.runes_c13 s) /\
-    (PushPreviewC13.trim_c13 true s = PushPreviewC13.POk p /\ p = PushPreviewC13.runes_c13 s \/
-     PushPreviewC13.trim_c13 true s = PushPreviewC13.POk (p ++ [PushPreviewC13.ellipsis_c13]) /\ (length p < length (PushPreviewC13.runes_c13 s))%nat).
+    (PushPreviewC13.trim_c13 true s = PushPreviewC13.POk s /\ p = PushPreviewC13.runes_c13 s \/
+     PushPreviewC13.trim_c13 true s = PushPreviewC13.POk (map PushPreviewC13.UValid p ++ [PushPreviewC13.UValid PushPreviewC13.ellipsis_c13]) /\ (length p < length (PushPreviewC13.runes_c13 s))%nat).
 Proof. intros s. split; [exact (PushPreviewC13Proofs.trim_no_panic s)|exact (PushPreviewC13Proofs.trim_prefix s)]. Qed.
 Print Assumptions c13_push_preview_no_panic.
 
 (* exact result *)
 Theorem c13_push_preview_exact : forall s,
-  ((length (PushPreviewC13.runes_c13 s) <= 128)%nat /\ PushPreviewC13.trim_c13 true s = PushPreviewC13.POk (PushPreviewC13.runes_c13 s)) \/
+  ((length (PushPreviewC13.runes_c13 s) <= 128)%nat /\ PushPreviewC13.trim_c13 true s = PushPreviewC13.POk s) \/
   ((128 < length (PushPreviewC13.runes_c13 s))%nat /\
-   PushPreviewC13.trim_c13 true s = PushPreviewC13.POk (firstn 128 (PushPreviewC13.runes_c13 s) ++ [PushPreviewC13.ellipsis_c13])).
+   PushPreviewC13.trim_c13 true s = PushPreviewC13.POk (map PushPreviewC13.UValid (firstn 128 (PushPreviewC13.runes_c13 s)) ++ [PushPreviewC13.UValid PushPreviewC13.ellipsis_c13])).
 Proof. exact PushPreviewC13Proofs.trim_spec. Qed.
 Print Assumptions c13_push_preview_exact.
 
